@@ -1,4 +1,5 @@
 pub mod c02;
+pub mod c03;
 pub mod c05;
 pub mod c07;
 pub mod c08;
@@ -8,3 +9,11 @@ pub mod c12;
 pub mod c13;
 pub mod c18;
 pub mod c20;
+
+pub fn c13_seeds() -> Vec<&'static str> {
+    vec![
+        "null", "true", "false", "0", "-0", "1.5e+3", "\"\"", "\"a\\nb\"", "[]", "{}", "[1,2]", "[[],{}]", "{\"a\":1}",
+        "{\"a\":1,\"b\":[true,null]}", "{\"a\":{\"b\":{\"c\":\"d\"}}}", "[\"\\u00e9\",\"\\ud834\\udd1e\"]", "[-1E-2,0.5]",
+        "{\"\":\"\"}", "{\"a\":1,\"a\":2}", "[1,[2,[3,[4]]]]",
+    ]
+}
